@@ -204,6 +204,8 @@ func (in *Interp) native(fv *FuncV, args []Value, at token.Pos) []Value {
 		return []Value{unicode.IsUpper(rune(args[0].(int64)))}
 	case "unicode.IsLetter":
 		return []Value{unicode.IsLetter(rune(args[0].(int64)))}
+	case "go/token.IsKeyword":
+		return []Value{token.IsKeyword(str(args[0]))}
 	case "strconv.Itoa":
 		return []Value{strconv.Itoa(int(args[0].(int64)))}
 	case "strconv.FormatInt":
